@@ -38,7 +38,7 @@ def gen_c06_history(rnd):
         fr, seen = [], set()
         for _ in range(rnd.randint(1, 4)):
             x = (rnd.choice(["Normal", "Normal", "Normal", "ForeignWord", "Numeral", "Proper"]), rnd.choice(surf), rnd.randint(1, 6),
-                 rnd.choice([4 * DAY, 4 * DAY, 10 * DAY, 2 * DAY, 3600 * 1000, 3 * DAY + 3600 * 1000, 3 * DAY - 3600 * 1000]))
+                 rnd.choice([4 * DAY, 4 * DAY, 10 * DAY, 2 * DAY, 3600 * 1000, 3 * DAY + 3600 * 1000, 3 * DAY - 3600 * 1000, -4 * DAY, -2 * DAY]))
             if (x[0], x[1]) not in seen:
                 seen.add((x[0], x[1]))
                 fr.append(x)
@@ -61,7 +61,7 @@ def predicate(res, hr):
     nt = False
     last_dmp = None
     rep = {"base": hr.base, "requests": hr.requests}
-    for (ev, obs), rq, dmp in zip(hr.events, [r for r in hr.requests if r["kind"] != "malformed"], hr.dumps):
+    for (ev, obs), rq, dmp in zip(hr.events, [r for r in hr.requests if r["kind"] not in ("malformed", "wait_save")], hr.dumps):
         if dmp is None:
             continue
         cur = fmap(dmp)
@@ -88,6 +88,8 @@ def predicate(res, hr):
                 now = None
                 for (c, w), a, b in bumped:
                     now = b[1]
+                    if abs(now - time.time() * 1000) > 3600 * 1000:
+                        res.violation(f"the confirmation stamps the count of {w!r} with {now}, which is not the current time in milliseconds ({int(time.time() * 1000)}): the three-day expiry cannot work on it", rep)
                     if b[0] != a[0] + 1:
                         res.violation(f"the count of {w!r} went from {a[0]} to {b[0]} on one confirmation", rep)
                     if c != ctx:
